@@ -17,6 +17,27 @@ import (
 
 var runWallLimit = 90 * time.Second
 
+// cpuOf: user + system time a process has used so far (/proc/<pid>/stat, fields
+// 14 and 15 in clock ticks of 10 ms).
+func cpuOf(pid int) time.Duration {
+	raw, err := os.ReadFile("/proc/" + strconv.Itoa(pid) + "/stat")
+	if err != nil {
+		return 0
+	}
+	s := string(raw)
+	k := strings.LastIndex(s, ")")
+	if k < 0 {
+		return 0
+	}
+	f := strings.Fields(s[k+1:])
+	if len(f) < 13 {
+		return 0
+	}
+	ut, _ := strconv.ParseInt(f[11], 10, 64)
+	st, _ := strconv.ParseInt(f[12], 10, 64)
+	return time.Duration(ut+st) * 10 * time.Millisecond
+}
+
 const runRSSLimit = 4 << 30
 
 type runOut struct {
@@ -98,10 +119,13 @@ wait:
 		case werr = <-done:
 			break wait
 		case <-tick.C:
-			if time.Since(t0) > runWallLimit {
+			// the limit is on the processor time the run has used (on a loaded
+			// machine a heavy run may take several times as long on the wall
+			// clock), with a generous wall-clock limit behind it
+			if cpuOf(cmd.Process.Pid) > runWallLimit || time.Since(t0) > 8*runWallLimit {
 				syscall.Kill(-cmd.Process.Pid, syscall.SIGKILL)
 				<-done
-				out.infra = fmt.Sprintf("infra_timeout: run exceeded %s wall", runWallLimit)
+				out.infra = fmt.Sprintf("infra_timeout: run exceeded %s of processor time (or %s on the wall clock)", runWallLimit, 8*runWallLimit)
 				break wait
 			}
 			if rssOf(cmd.Process.Pid) > runRSSLimit {
@@ -183,7 +207,7 @@ func (b *build) isolatedC13(base, scnPath string, s *scn.Scenario, res *scn.Resu
 	go func() { done <- cmd.Wait() }()
 	select {
 	case <-done:
-	case <-time.After(runWallLimit):
+	case <-time.After(4 * runWallLimit):
 		cmd.Process.Kill()
 		<-done
 		return nil, "infra_timeout: isolated reference exceeded " + runWallLimit.String()
@@ -228,7 +252,7 @@ func (b *build) isolatedReferences(base, scnPath string, s *scn.Scenario, res *s
 		go func() { done <- cmd.Wait() }()
 		select {
 		case <-done:
-		case <-time.After(runWallLimit):
+		case <-time.After(4 * runWallLimit):
 			cmd.Process.Kill()
 			<-done
 			return nil, "infra_timeout: isolated reference exceeded " + runWallLimit.String()
